@@ -103,7 +103,7 @@ CLAIMED['C11'] = dict(
 
 CLAIMED['C15'] = dict(
    technique='must-fact (dominance) dataflow over the structured clang AST of every library function: guards establish facts (optional engaged, iterator != end, index bounds, divisor non-zero) that obligations at dereference / index / division sites must find on every path; call-graph rules for throw types, handle contract and recursion',
-   text='For every function of the library outside the schema creators (about 600 definitions incl. header inlines and template instantiations) and for the enumerated UB classes: U1 each of the 128 optional dereferences is dominated by an engaged-test or an engaging assignment (asserts do not count - NDEBUG); U2 each of the 40 vector / array / string subscripts has its index proved in range (literal: size() > k; variable: 0 <= i < size(), i+1 / i-1 / size()-k forms, the down-sampling idiom size()*(2i+1)/(2E); internal helpers by the allocations at their call sites); U3 iterators from find / find_if are used only under a comparison with end() / begin(); U6 each integer division has a divisor proved non-zero after conversion to integer; U7 every throw derives from std::exception and noexcept functions do not throw; U8 id(), copying, assignment and destruction of handles reach no SQL, is_valid() is a pure existence query; U9 the only recursion descends along crate::children().',
+   text='For every function of the library outside the schema creators (about 600 definitions incl. header inlines and template instantiations) and for the enumerated UB classes: U1 each of the 128 optional dereferences is dominated by an engaged-test or an engaging assignment (asserts do not count - NDEBUG); U2 each of the 40 vector / array / string subscripts has its index proved in range (literal: size() > k; variable: 0 <= i < size(), i+1 / i-1 / size()-k forms, the down-sampling idiom size()*(2i+1)/(2E); internal helpers by the allocations at their call sites); U3 iterators from find / find_if are used only under a comparison with end() / begin(); U5 locally declared aggregates have every scalar member without default initialiser assigned before the object is used as a whole; U6 each integer division has a divisor proved non-zero after conversion to integer; U7 every throw derives from std::exception and noexcept functions do not throw; U8 id(), copying, assignment and destruction of handles reach no SQL, is_valid() is a pure existence query; U9 the only recursion descends along crate::children().',
    note='Trusted: clang AST, sa/guards.py (fact language). UB classes not decided: out-of-range floating to integer conversion, signed overflow outside the decoders (C05), lifetime of caller-held references, data races. Five genuine defects repaired (two unchecked optional dereferences, off-by-one and missing slot index checks, division by a truncated rate); two more repaired under C09 (end() dereference in the chain walkers) and C03 (cue buffer overflow).',
    ref='DESIGN.md 4 C15')
 
